@@ -416,6 +416,7 @@ def check(pid, spec, tier, seed, replay, t0):
     samples = []
     nontrivial = set()
     stats = {"n": 0, "ood": 0, "mismatch": 0}
+    known_seen = set()
 
     def consume(results):
         for r in results:
@@ -437,8 +438,16 @@ def check(pid, spec, tier, seed, replay, t0):
             if len(samples) < 3:
                 samples.append({"case": r["line"][:1500], "impl": r["impl"], "model": r["model"]})
             if d:
-                stats["mismatch"] += 1
                 r["diff"] = d
+                sig = r.get("signature_override") or spec.get("signature", default_signature)(r)
+                if any(k["signature"] == sig for k in known):
+                    # a listed finding: remember one exemplar per signature, do not let it end the run early
+                    stats["known"] = stats.get("known", 0) + 1
+                    if sig not in known_seen:
+                        known_seen.add(sig)
+                        mismatches.append(r)
+                    continue
+                stats["mismatch"] += 1
                 if len(mismatches) < 400:
                     mismatches.append(r)
 
